@@ -115,7 +115,7 @@ def histories_for(pid, tier):
             out.append((k, ins(2) + ['clear', 'insert']))
             for cap in (0, 1, 8, 9):
                 out.append((k, ['insert'] if cap else [], cap))       # base case new(capacity hint)
-            out.append((k, ['insert_asc'] * 9 + ['get_value'], 0))      # arena growth from the default 8 slots (ascending keys)
+            out.append((k, ['insert_asc'] * 9 + (['is_empty'] if k == 'key' else ['get_value']), 0))      # arena growth from the default 8 slots (ascending keys)
             out.append((k, ins(3), 1))
     # de-duplicate
     seen = set()
